@@ -37,8 +37,8 @@ ASSUMPTIONS = [
 TOL = 1e-9
 MAXV = 5
 # theorems that carry a clause of the property (of 14 in Props/C12.lean); not listed: helpers / repackagings (driver_ceil_is_ceil,
-# step_inv, run_inv, inv_reachable_inv, covers_request_ctor is listed because the constructor is an operation of the statement)
-# and the two decided instances about the pre-fix constructor (ctor_old_counterexample, ctor_new_same_input)
+# step_inv, run_inv, inv_reachable_inv) and the two decided instances about the pre-fix constructor (ctor_old_counterexample,
+# ctor_new_same_input)
 CORE_THEOREMS = ["PersimVerif.C12." + n for n in (
     "inv_reachable", "mesh_is_square", "covers_request", "covers_request_ctor", "covers_request_history", "shape_is_resolution",
     "reachable_image_shape", "reachable_image_shape_history")]
